@@ -166,7 +166,7 @@ def sql_parser(variant, k0, k1, documented):
 
 
 for _v, _vn in ((0, "table"), (1, "class")):
-    ob("C14", "ast.sqlalchemy.%s" % _vn, {"variant": R(_v, _v), "k0": R(0, len(COLKINDS) - 1), "k1": R(0, len(COLKINDS) - 1), "documented": BOOL}, T=600, tpath=60,
+    ob("C14", "ast.sqlalchemy.%s" % _vn, {"variant": R(_v, _v), "k0": R(0, len(COLKINDS) - 1), "k1": R(0, len(COLKINDS) - 1), "documented": BOOL}, enum=True, T=600, tpath=60,
        funcs=["cdd.sqlalchemy.parse.sqlalchemy", "cdd.sqlalchemy.parse.sqlalchemy_table", "cdd.sqlalchemy.utils.parse_utils.column_call_to_param",
               "cdd.sqlalchemy.utils.emit_utils.sqlalchemy_class_to_table", "cdd.shared.parse.utils.parser_utils.ir_merge"],
        bound="SQLAlchemy %s with two columns, each of ANY of %d kinds (plain, PK, FK, PK+FK, default+not-null, nullable, Enum, JSON+server_default), documented in the "
@@ -217,7 +217,7 @@ def sig_params_once(kind, documented, nargs, first):
     return ""
 
 
-ob("C14", "ast.signature_once", {"kind": R(0, 2), "documented": BOOL, "nargs": R(0, 2), "first": R(0, 2)}, T=600, tpath=60,
+ob("C14", "ast.signature_once", {"kind": R(0, 2), "documented": BOOL, "nargs": R(0, 2), "first": R(0, 2)}, enum=True, T=600, tpath=60,
    funcs=["cdd.function.parse.function", "cdd.class_.parse.class_", "cdd.class_.parse._merge_inner_function", "cdd.shared.parse.utils.parser_utils.ir_merge"],
    assumes=[ADHOC_SHIMS_DOC],
    bound="function(def), function(def, function_type=...), class_(cls, merge_inner_function='create') on a def whose first argument is a plain name / self / cls, "
@@ -304,7 +304,9 @@ def json_schema_anyof(n, a0, a1, a2, req, fmt_mask):
     return ""
 
 
-ob("C14", "ast.json_schema.anyof", {"n": R(1, 3), "a0": R(0, 6), "a1": R(0, 6), "a2": R(0, 6), "req": BOOL, "fmt_mask": R(0, 7)}, T=900, tpath=60,
-   funcs=["cdd.json_schema.parse.json_schema", "cdd.json_schema.utils.parse_utils.json_schema_property_to_param"],
-   bound="hand-written JSON-schema whose first property is an anyOf of 1..3 alternatives, each of ANY of the seven JSON types (repeats allowed), string alternatives with or without a "
-         "format, required or not (solver-enumerated): the returned interface is well-formed - in particular the type parses as a Python expression")(json_schema_anyof)
+for _n in (1, 2, 3):
+    ob("C14", "ast.json_schema.anyof.n%d" % _n, {"n": R(_n, _n), "a0": R(0, 6), "a1": R(0, 6) if _n > 1 else R(0, 0), "a2": R(0, 6) if _n > 2 else R(0, 0), "req": BOOL,
+                                                  "fmt_mask": R(0, 2 ** _n - 1)}, enum=True, T=900, tpath=60, tier="quick" if _n < 3 else "thorough",
+       funcs=["cdd.json_schema.parse.json_schema", "cdd.json_schema.utils.parse_utils.json_schema_property_to_param"],
+       bound="hand-written JSON-schema whose first property is an anyOf of %d alternative(s), each of ANY of the seven JSON types (repeats allowed), string alternatives with or without a "
+             "format, required or not (solver-enumerated): the returned interface is well-formed - in particular the type parses as a Python expression" % _n)(json_schema_anyof)
